@@ -453,14 +453,34 @@ impl GroupConfig {
                 Overreplicated(self.rf_over())
             },
             root_paths: if self.isolate {
-                // scanned files are reported by their canonical paths, so the roots must be
-                // canonical too, however they were spelled (./x, x/../x, through a symlink)
-                self.input_paths().map(|p| p.canonicalize()).collect()
+                self.isolated_roots()
             } else {
                 vec![]
             },
             group_by_id: !self.match_links,
         }
+    }
+
+    /// Returns the input paths as roots for `--isolate`, named the way the scan reports the
+    /// files found under them.
+    pub fn isolated_roots(&self) -> Vec<Path> {
+        self.input_paths()
+            .map(|p| {
+                // scanned files are reported by their canonical paths, so the roots must be
+                // canonical too, however they were spelled (./x, x/../x, through a symlink)
+                let buf = p.to_path_buf();
+                let reported_as_link =
+                    self.symbolic_links && !self.follow_links && buf.is_symlink() && buf.is_file();
+                match (p.parent(), p.file_name()) {
+                    // ... except for a link to a file given with `--symbolic-links`: the scan
+                    // reports the link itself, only its directory is resolved
+                    (Some(parent), Some(name)) if reported_as_link => {
+                        Arc::new(parent.canonicalize()).join(Path::from(name))
+                    }
+                    _ => p.canonicalize(),
+                }
+            })
+            .collect()
     }
 
     pub fn rf_over(&self) -> usize {
